@@ -373,8 +373,8 @@ def sign_facts(ctx, dom):
                 facts.append(r.const == 0)
             continue
         s = z3.Solver()
-        s.set("timeout", 4000)
-        for ax in ctx.side:
+        s.set("timeout", 1500)
+        for ax in ctx.side + (_log_side() if "LOG" in r.body.sexpr() else []):
             s.add(ax)
         s.add(dom)
         s.push()
@@ -431,7 +431,7 @@ def linear_sum_facts(ctx, dom, terms):
         if body is None or t.get_id() in sums:
             continue
         s = z3.Solver()
-        s.set("timeout", 4000)
+        s.set("timeout", 1500)
         for ax in ctx.side:
             s.add(ax)
         s.add(dom)
@@ -624,3 +624,162 @@ def verify_registry(repo, specs):
     ok, why = wrapper_shifts(repo, fn)
     obs.append(mk(q + "/static/decorator/shifts-by-EPSILON", "static", [], z3.BoolVal(ok), fn.lineno, why))
     return obs
+
+
+# ------------------------------------------------------------------------------------- C08: axioms over the closed forms
+
+class SwapAPI(SpecAPI):
+    """the closed form evaluated at (y, x)"""
+
+    def S(self, f):
+        return self.ctx.red("sum", rv(f(B, A)))
+
+    def M(self, f):
+        return self.ctx.red("max", rv(f(B, A)))
+
+    def C(self, f):
+        return self.ctx.red("count", f(B, A))
+
+
+class SelfAPI(SpecAPI):
+    """the closed form evaluated at (x, x)"""
+
+    def S(self, f):
+        return self.ctx.red("sum", rv(f(A, A)))
+
+    def M(self, f):
+        return self.ctx.red("max", rv(f(A, A)))
+
+    def C(self, f):
+        return self.ctx.red("count", f(A, A))
+
+
+LOG_AXIOMS_NOTE = "log: log(1) = 0 (assumed); sqrt: non-negative root of a non-negative number"
+
+
+def _log_side():
+    """ASSUMED properties of log (external contract): log 1 = 0, sign of log around 1, log(u / v) = log u - log v"""
+    u, w = z3.Reals("lg_u lg_w")
+    return [LOG(z3.RealVal(1)) == 0,
+            z3.ForAll([u], z3.And(z3.Implies(u >= 1, LOG(u) >= 0), z3.Implies(u > 1, LOG(u) > 0),
+                                  z3.Implies(z3.And(u > 0, u < 1), LOG(u) < 0)), patterns=[LOG(u)]),
+            z3.ForAll([u, w], z3.Implies(z3.And(u > 0, w > 0), LOG(u / w) == LOG(u) - LOG(w)), patterns=[LOG(u / w)])]
+
+
+def verify_axioms(repo, name, spec):
+    """symmetric / non-negative / zero self-distance as lemmas over the closed form (which C06 proves equal to the code).
+    Reductions: equal summands give equal sums (congruence); a sum / max / count of pointwise-zero (false) terms is 0;
+    sign facts as in C06."""
+    qual = "axioms:" + name
+    obs = []
+    ax = spec["axioms"].split()
+    dom = domain_constraint(spec["domain"])
+    base = Ctx("s", spec["domain"])
+    F = rv(spec["form"](SpecAPI(base)))
+    if "sym" in ax:
+        sw = Ctx("w", spec["domain"])
+        Fs = rv(spec["form"](SwapAPI(sw)))
+        side = base.side + sw.side + _log_side()
+        subst, unmatched = [], 0
+        for r2 in sw.reds:
+            m = None
+            for r1 in base.reds:
+                if r1.kind != r2.kind or z3.is_bool(r1.body) != z3.is_bool(r2.body):
+                    continue
+                s = z3.Solver()
+                s.set("timeout", 8000)
+                for a in side:
+                    s.add(a)
+                s.add(dom)
+                s.add(r1.body != r2.body)
+                if s.check() == z3.unsat:
+                    m = r1
+                    break
+            if m is not None:
+                subst.append((r2.const, m.const))
+            else:
+                unmatched += 1
+        Fs2 = z3.substitute(Fs, *subst) if subst else Fs
+        side2 = [z3.substitute(a, *subst) if subst else a for a in side]
+        u = Ctx("u", spec["domain"])
+        u.reds = base.reds + [r for r in sw.reds if not any(r.const.eq(a) for a, _ in subst)]
+        u.side = side
+        facts = sign_facts(u, dom)
+        obs.append(mk(qual + "/lemma/symmetric", "lemma", side2 + facts, F == Fs2, 0,
+                      "reductions of d(y,x) not matched pointwise with one of d(x,y): %d" % unmatched))
+    if "nonneg" in ax:
+        u = Ctx("u", spec["domain"])
+        u.reds, u.side = base.reds, base.side
+        facts = sign_facts(u, dom)
+        cand = [x for x in subterms(F) if z3.is_app(x) and z3.is_real(x) and x.decl().kind() in (z3.Z3_OP_ADD, z3.Z3_OP_SUB)]
+        facts += linear_sum_facts(u, dom, cand)
+        obs.append(mk(qual + "/lemma/non-negative", "lemma", base.side + _log_side() + facts, F >= 0))
+    if "zero" in ax:
+        se = Ctx("z", spec["domain"])
+        Fz = rv(spec["form"](SelfAPI(se)))
+        facts = [N >= 1]
+        dz = z3.And(dom, A == B)
+        for r in se.reds:
+            s = z3.Solver()
+            s.set("timeout", 8000)
+            for a in se.side + (_log_side() if "LOG" in r.body.sexpr() else []):
+                s.add(a)
+            s.add(dz)
+            zero = False
+            if z3.is_bool(r.body):
+                s.add(r.body)
+                zero = s.check() == z3.unsat
+            else:
+                s.add(r.body != 0)
+                zero = s.check() == z3.unsat
+            if zero:
+                facts.append(r.const == 0)      # a reduction of identically zero (false) terms is 0
+            else:
+                # otherwise only its sign / value facts
+                u = Ctx("u", spec["domain"])
+                u.reds, u.side = [r], se.side
+                facts += sign_facts(u, dz)[1:]
+        obs.append(mk(qual + "/lemma/zero-self-distance", "lemma", se.side + _log_side() + facts, Fz == 0))
+    return obs
+
+
+TRIANGLE_POINTWISE = {
+    # metric -> (pointwise term g(a, b), how the metric is built from the reduction of g)
+    "manhattan": ("sum", lambda a, b: z3.If(a - b >= 0, a - b, b - a)),
+    "gower": ("sum", lambda a, b: z3.If(a - b >= 0, a - b, b - a)),
+    "non_intersection": ("sum", lambda a, b: z3.If(a - b >= 0, a - b, b - a)),
+    "hamming": ("sum", lambda a, b: z3.If(a != b, z3.RealVal(1), z3.RealVal(0))),
+    "canberra": ("sum", lambda a, b: z3.If(a - b >= 0, a - b, b - a) / (z3.If(a >= 0, a, -a) + z3.If(b >= 0, b, -b))),
+    "chebyshev": ("max", lambda a, b: z3.If(a - b >= 0, a - b, b - a)),
+    "lorentzian": ("sum-log", lambda a, b: 1 + z3.If(a - b >= 0, a - b, b - a)),
+}
+
+
+def verify_triangle(repo, name, spec):
+    """pointwise triangle inequality of the summand; additivity + monotonicity of SUM (sub-additivity + monotonicity of
+    AMAX) then give the inequality for the metric (a positive multiple or a division by n preserves it).  For
+    lorentzian the pointwise fact is (1+|a-c|) <= (1+|a-b|)(1+|b-c|) and log is assumed monotone with log(uv) = log u + log v."""
+    qual = "axioms:" + name
+    kind, g = TRIANGLE_POINTWISE[name]
+    a, b, c = z3.Reals("tri_a tri_b tri_c")
+    dom = z3.BoolVal(True)
+    if spec["domain"] == "positive":
+        dom = z3.And(a > 0, b > 0, c > 0)
+    elif spec["domain"] == "nonneg":
+        dom = z3.And(a >= 0, b >= 0, c >= 0)
+    if kind == "sum-log":
+        goal = g(a, c) <= g(a, b) * g(b, c)
+    else:
+        goal = g(a, c) <= g(a, b) + g(b, c)
+    # the summand used here must be the summand of the closed form (same reduction body)
+    ctx = Ctx("t", spec["domain"])
+    rv(spec["form"](SpecAPI(ctx)))
+    body = ctx.reds[0].body if ctx.reds else None
+    if kind == "sum-log":
+        mine = LOG(g(A, B))
+    else:
+        mine = rv(g(A, B))
+    same = mk(qual + "/lemma/triangle/summand-is-the-closed-form-summand", "lemma", [domain_constraint(spec["domain"])],
+              body == mine if body is not None and not z3.is_bool(body) else
+              (z3.If(body, z3.RealVal(1), z3.RealVal(0)) == mine if body is not None else z3.BoolVal(False)))
+    return [same, mk(qual + "/lemma/triangle/pointwise", "lemma", [dom], goal)]
